@@ -1969,6 +1969,12 @@ func (c *Conn) legacyReplayMarker(header *recordlayer.Header) (func() bool, bool
 
 		return nil, false
 	}
+	if header.Epoch == 0 {
+		// Nothing authenticates an unprotected record: its sequence number
+		// must not move the window, or one forged record numbered 2^48-1
+		// makes every genuine record of the handshake look like a replay.
+		return func() bool { return false }, true
+	}
 
 	return markPacketAsValid, true
 }
